@@ -30,7 +30,11 @@ where
                 }
                 Ok(None) => {}
                 Err(mut err) => {
-                    self.skip_to_next_entry_start();
+                    if let Some(line_end) = self.skip_to_next_entry_start(entry_start) {
+                        if err.pos.start > line_end {
+                            err.pos = line_end..line_end + 1;
+                        }
+                    }
                     err.slice = Some(entry_start..self.ptr);
                     errors.push(err);
                     let content = self.source.slice(entry_start..self.ptr);
